@@ -417,14 +417,14 @@ func scenC13(x *Exec) {
 	p.Net.EOFWithData = []float64{0.2, 0, 1}[g.Pick(3)]
 	nconn := 1 + g.Intn(3)
 	type connData struct {
-		stream   []byte
-		want     []string
-		protos   []int // protocol of the frame each expected datapoint comes from
-		invalid  int
-		cuts     []int
-		trailing []byte // a later, fresh connection to the same listener (after a malformed one)
-		wantTail []string
-		invTail  int
+		stream    []byte
+		want      []string
+		protos    []int // protocol of the frame each expected datapoint comes from
+		invalid   int
+		cuts      []int
+		trailing  []byte // a later, fresh connection to the same listener (after a malformed one)
+		wantTail  []string
+		invTail   int
 		tailProto int
 	}
 	cds := make([]*connData, nconn)
